@@ -579,6 +579,12 @@ def run(ctx):
                           "and kernel draws differ from the uninterrupted run" if attr_ == "rng" else "history into it: the restored record is dropped"),
                        disc=f"replaced|{attr_}")
     ctx.count("restore_calls_on_resumed_path", len(rest_ev))
+    # ---- the documented resume route reads the proposal from the file: it must be the flow the checkpointed population was weighted under
+    from ..report import reuse as _reuse
+    from . import c14 as _c14
+    _reuse(ctx, lambda c: _c14.run(c, shared=False), ("C14.flow",), "C11file",
+           "stale-flow rule shared with C14: resume_from_file() continues the checkpointed population with the flow stored next to it; if a refit flow was never "
+           "written, log_q, the temperature schedule and every later population differ from the uninterrupted run")
     # ---- a run resumed from a finished checkpoint does not iterate again
     if lpr is not None:
         guard_names = [n for n in walk_no_nested(sample.node) if isinstance(n, ast.If) and loop_node in n.body]
@@ -941,6 +947,9 @@ MUTANTS += [
       more=[("\"meta\": meta or {},", "\"meta\": meta,")]),
     M("history aliased into the checkpoint", _B, "history_copy = copy.deepcopy(self.history)", "history_copy = self.history", "C11.snapshot"),
     M("history shallow-copied into the checkpoint", _B, "history_copy = copy.deepcopy(self.history)", "history_copy = copy.copy(self.history)", "C11.snapshot"),
+]
+MUTANTS += [
+    M("flow written to the checkpoint file once per context", _A, "if self.flow is not None:\n                    # Always store", "if self.flow is not None and not saved_flow:\n                    # Always store", "C11file.flow"),
 ]
 NEUTRALS = [
     M("payload metadata defaults to an empty dict that is copied before use", "src/aspire/samplers/base.py", "meta: dict | None = None,\n    ) -> dict:", "meta: dict = {},\n    ) -> dict:",
